@@ -38,7 +38,8 @@ type DInput struct {
 	New       DRS   `json:"new"`
 	Olds      []DRS `json:"olds"`
 	NewOldest bool  `json:"new_oldest,omitempty"`
-	NoRU      bool  `json:"no_ru,omitempty"` // the strategy annotation carries no rollingUpdate section
+	NoRU      bool  `json:"no_ru,omitempty"`
+	StaleAnno bool  `json:"stale_anno,omitempty"` // old ReplicaSets that were scaled to 0 while the Deployment had another size keep that size in their annotation // the strategy annotation carries no rollingUpdate section
 	// status.availableReplicas a previous sync left behind when it no longer matches the ReplicaSets (pods failed or became
 	// available since); not an input of the model: the controller counts the ReplicaSets it sees
 	StaleAvail *int `json:"stale_avail,omitempty"`
@@ -95,6 +96,7 @@ func (deployctlEngine) Gen(r *rand.Rand, idx int, tier string) any {
 	}
 	in.NewOldest = chance(r, 25)
 	in.NoRU = chance(r, 10)
+	in.StaleAnno = chance(r, 40)
 	k := pick(r, 1, 1, 2, 3, 3, 4, 5, 0)
 	remain := n - newSpec
 	if chance(r, 25) {
@@ -206,11 +208,15 @@ func (deployctlEngine) Run(inAny any) (res any) {
 	base := time.Now().Add(-time.Hour)
 	mkRS := func(name, rev string, idx int, s DRS, revision int) *apps.ReplicaSet {
 		sp := int32(s.Spec)
+		desired := in.N
+		if in.StaleAnno && s.Spec == 0 {
+			desired = in.N + 3
+		}
 		tmpl := dTemplate(rev)
 		tmpl.Labels[apps.DefaultDeploymentUniqueLabelKey] = "h" + rev
 		return &apps.ReplicaSet{ObjectMeta: metav1.ObjectMeta{Namespace: "ns", Name: name, UID: types.UID("uid-" + name), CreationTimestamp: metav1.NewTime(base.Add(time.Duration(idx) * time.Minute)),
 			Labels: map[string]string{"app": "demo", apps.DefaultDeploymentUniqueLabelKey: "h" + rev}, OwnerReferences: []metav1.OwnerReference{owner},
-			Annotations: map[string]string{deploymentutil.RevisionAnnotation: strconv.Itoa(revision), deploymentutil.ReplicasAnnotation: strconv.Itoa(in.N),
+			Annotations: map[string]string{deploymentutil.RevisionAnnotation: strconv.Itoa(revision), deploymentutil.ReplicasAnnotation: strconv.Itoa(desired),
 				deploymentutil.MaxReplicasAnnotation: strconv.Itoa(in.N + 100)}},
 			Spec:   apps.ReplicaSetSpec{Replicas: &sp, Selector: &metav1.LabelSelector{MatchLabels: map[string]string{"app": "demo", apps.DefaultDeploymentUniqueLabelKey: "h" + rev}}, Template: tmpl},
 			Status: apps.ReplicaSetStatus{Replicas: sp, AvailableReplicas: int32(s.Avail), ReadyReplicas: int32(s.Avail)}}
